@@ -22,6 +22,7 @@ type Event struct {
 }
 
 type loopRec struct {
+	atHeader map[string]*Val // values of the loop-carried variables at the start of the current iteration
 	header   int // block index
 	fnKey    string
 	frameID  int
